@@ -93,6 +93,19 @@ func newSimApp(script string, seed int64) *simApp {
 			}
 			return nil
 		}),
+		// onerror registers a listener for the scope's error event that takes simulated time:
+		// body-side activity that goes on after the scope is already done
+		mk("onerror", func(ctx app.IOContext) error {
+			id, ms := arg(ctx)
+			ctx.Scope().On(app.ErrorEvent, func(interface{}) error {
+				if ms > 0 {
+					simrt.Sleep(time.Duration(ms) * time.Millisecond)
+				}
+				sa.log("errlistener", id)
+				return nil
+			})
+			return nil
+		}),
 		mk("fail", func(ctx app.IOContext) error {
 			id, _ := arg(ctx)
 			sa.log("fail", id)
